@@ -383,6 +383,22 @@ class Corpus:
                 made.append(n)
         return made, rc, err
 
+    def add_nested(self):
+        """second round: stored members whose CONTENTS are an archive of the same format (local-header
+        signatures inside member data: a reader that does not skip exactly finds a false header)"""
+        d = {n: p for n, p, s in self.items}
+        specs = []
+        for inner, fmt, opts in (("w-zip-store", "zip", "zip:compression=store"), ("w-ustar", "ustar", ""), ("w-cpio-odc", "cpio", "")):
+            if inner in d:
+                body = open(d[inner], "rb").read()
+                ents = [["first", AE_IFREG, 700, 1, 11, [], ""], ["inner", AE_IFREG, len(body), 1, 0, [], "", body],
+                        ["last", AE_IFREG, 900, 1, 12, [], ""]]
+                specs.append(("nested-" + inner[2:], fmt, [], opts, ents))
+                if fmt == "zip":
+                    unsized = [e[:3] + [0] + e[4:] for e in ents]
+                    specs.append(("nested-lae-" + inner[2:], fmt, [], opts, unsized))
+        return self.add_written(specs)[0] if specs else []
+
     def add_derived(self):
         """archives made from the above by byte surgery (no writer produces them)"""
         d = {n: p for n, p, s in self.items}
@@ -539,7 +555,7 @@ class E2E:
                 viol("C06:blocks:beyond-size:" + fmt, "entry %d %r: blocks end at %d, entry size %d" % (k, b["path"], b["dense"][0], b["size"]), base_line)
         self.stats["vectors"] += len(outs)
         if len(self.samples) < 4 and lines:
-            self.samples.append(lines[min(len(lines) - 1, 7)].replace(path, name))
+            self.samples.append("(1 <%s> %s %d)" % (name, vfmt(V[min(len(V) - 1, 9)]), bs))
         kinds = {0: "read_data", 1: "read_data_block", 2: "prefix", 3: "skip", 4: "nothing", "-": "open"}
         for v, line, o in zip(V, lines, outs):
             if o is None:
@@ -553,7 +569,7 @@ class E2E:
                     k += 1
                 prev = (v[min(k - 1, len(v) - 1)] if k > 0 else ["-"])
                 sparse_prev = k > 0 and k - 1 < len(base) and base[k - 1]["hdr"][9] > 0
-                viol("C06:headers-depend-on-consumption:%s:after-%s%s" % (fmt, kinds.get(prev[0], "?"), "-of-sparse-entry" if sparse_prev else ""),
+                viol("C06:headers-depend-on-consumption:%s:%s%s" % (fmt, "stream" if bs else "seekable", ":after-sparse-entry" if sparse_prev else ""),
                      "header #%d differs from the read-everything run after the previous entry was consumed by '%s' (choices %s): got %s (final status %s %r), want %s" %
                      (k, kinds.get(prev[0], "?"), [kinds.get(x[0]) for x in v[:k + 1]], hdrs[k] if k < len(hdrs) else "end of archive", fin, o[2][:80],
                       want[k] if k < len(want) else "end of archive"),
@@ -645,6 +661,7 @@ def run(rep):
     r = vlib.rng(rep.seed, "C06-e2e")
     corpus = Corpus(exe)
     made, wrc, werr = corpus.add_written(writer_specs())
+    made += corpus.add_nested()
     tdir = os.path.join(vlib.REPO, "libarchive", "test")
     uus = sorted(f for f in os.listdir(tdir) if f.endswith(".uu"))
     must = [u for u in uus if u[:-3] in MUST_HAVE]
@@ -709,6 +726,7 @@ def replay(rep, path):
             corpus.add_reference(os.path.join(tdir, spec["uu"]))
         else:
             corpus.add_written(writer_specs())
+            corpus.add_nested()
             for u in ("test_compat_solaris_pax_sparse_1.pax.Z.uu",):
                 corpus.add_reference(os.path.join(tdir, u))
             corpus.add_derived()
